@@ -47,7 +47,7 @@ from simkit.rng import seed_globals  # noqa: E402
 from simkit.world import InvalidScenario, Monitor, Violation, repo_exception_sig, result, run_sim  # noqa: E402
 
 PROPERTY = "C13"
-RUNS = {"quick": 2000, "thorough": 120_000}
+RUNS = {"quick": 2000, "thorough": 600_000}
 WALL = {"quick": 55, "thorough": 1500}
 BATCH = {"quick": 20, "thorough": 100}
 SELFTEST_RUNS = 8
